@@ -21,9 +21,9 @@ LEVEL_TEXT = ("Sequences of up to 40 actions drive one bridge object through sta
               "returned. 'Never' is checked up to the point where the port is provably released. Sequences are sampled and shrunk.")
 RULE = ("case = number of ports + step list; non-trivial = contains a restart, a failed start on a port index > 0, or a send around "
         "a stop; distinct by (ports, steps)."
-        ' The ports are handed to the bridge as a list or a tuple. Further actions: idle (1 s .. 25 h of event-loop time under the harness-owned loop clock), new_loop (the event loop is closed and a new one made while the bridge is stopped; the bridge object is kept), a second bridge object started on the same ports (rival_start), start with the file-descriptor limit lowered so that a later port fails with EMFILE (start_fd_exhausted), 0..4 loop turns between queued datagrams and stop(), context exit with an exception (RuntimeError, OSError, TimeoutError, and the BaseExceptions CancelledError and KeyboardInterrupt).')
+        ' start is also called on a running bridge (start_while_running). The ports are handed to the bridge as a list or a tuple. Further actions: idle (1 s .. 25 h of event-loop time under the harness-owned loop clock), new_loop (the event loop is closed and a new one made while the bridge is stopped; the bridge object is kept), a second bridge object started on the same ports (rival_start), start with the file-descriptor limit lowered so that a later port fails with EMFILE (start_fd_exhausted), 0..4 loop turns between queued datagrams and stop(), context exit with an exception (RuntimeError, OSError, TimeoutError, and the BaseExceptions CancelledError and KeyboardInterrupt).')
 ASSUMPTIONS = [
-    "start() while already running is undocumented and not generated",
+    "start() on a running bridge may either fail with OSError and leave nothing listening (what the code does today) or be a no-op; the model follows the observed outcome and the invariants (is_running <=> all ports bound, delivery) are checked afterwards",
     "a port is 'released' when a UDP socket without SO_REUSEADDR can bind 0.0.0.0:port after two event-loop cycles",
     "private port block per process (flock allocator), so EADDRINUSE can only come from this process",
 ]
@@ -238,6 +238,22 @@ class BridgeSys:
                 if dead or self.rig.invocations != before + len(self.ports):
                     self.fail("bridge-disturbed-by-another-instance", {"callbacks": len(self.ports)},
                               {"callbacks": self.rig.invocations - before, "dead_ports": len(dead)})
+        elif a == "start_while_running":
+            # "any sequence of start and stop calls" includes start on a running bridge.  Two behaviours are consistent with
+            # the statement: the call fails (its own ports are in use), the error is raised and nothing is left listening - or
+            # it is a no-op and the bridge goes on running.  The model follows whichever happened; the invariants do the rest.
+            try:
+                await self.bridge.start()
+                outcome = "started"
+            except OSError:
+                outcome = "OSError"
+            except Exception as exc:  # noqa
+                outcome = f"{type(exc).__name__}: {exc}"
+            if outcome == "OSError":
+                self.running = False
+                self.failed_start = True
+            elif outcome != "started":
+                self.fail("start-while-running-raises-other-than-OSError", "OSError or a no-op", outcome)
         elif a == "occupy":
             i = step["port"] % self.nports
             if i not in self.occupied:
@@ -263,8 +279,8 @@ class BridgeSys:
 
     def _why_not_running(self):
         acts = [s["action"] for s in self.trace[:-1]]
-        last = next((x for x in reversed(acts) if x in ("start", "enter", "stop", "leave", "send_then_stop")), "never-started")
-        return "after-failed-start" if last in ("start", "enter") else f"after-{last}"
+        last = next((x for x in reversed(acts) if x in ("start", "enter", "stop", "leave", "send_then_stop", "start_while_running")), "never-started")
+        return "after-failed-start" if last in ("start", "enter", "start_while_running") else f"after-{last}"
 
     async def _invariants(self, step):
         got = self.bridge.is_running
@@ -381,6 +397,11 @@ def machine_factory(nports):
             @rule(port=st.integers(0, nports - 1), n=st.integers(1, 4), cycles=st.integers(0, 4))
             def send_then_stop(self, port, n, cycles):
                 self.do({"action": "send_then_stop", "port": port, "n": n, "cycles": cycles})
+
+            @precondition(lambda self: self.sys.running)
+            @rule()
+            def start_while_running(self):
+                self.do({"action": "start_while_running"})
 
             @precondition(lambda self: not self.sys.running and nports > 1)
             @rule(allow=st.integers(1, max(1, nports - 1)))
